@@ -12,10 +12,10 @@ log = (src / f'confirm_m{i}.log').read_text() if (src / f'confirm_m{i}.log').exi
 conf = {l.split('=')[0]: l.split('=')[1] for l in log.splitlines() if '=' in l and l.startswith(('demo_', 'check_'))}
 tests = [l for l in log.splitlines() if l.startswith('tests_with_mutation')]
 out = {
- 'property': P, 'summary': meta.get('summary'), 'needs_to_manifest': meta.get('needs_to_manifest'), 'files': meta.get('files'),
+ 'property': P[:3], 'summary': meta.get('summary'), 'needs_to_manifest': meta.get('needs_to_manifest'), 'files': meta.get('files'),
  'author': 'independent sub-agent given only the property text and a scratch worktree',
  'confirmed_by_me': {
-   'how': f'tools/confirm_mutant.sh {P} {i}: scratch worktree /tmp/mut/{P}: git apply; demo (expect exit 1); full pytest suite; git checkout; demo (expect exit 0)',
+   'how': f'tools/confirm_mutant.sh {P} {i} {P[:3]}: scratch worktree /tmp/mut/{P}: git apply; demo (expect exit 1); full pytest suite; git checkout; demo (expect exit 0)',
    'demo_exit_with_mutation': conf.get('demo_with_mutation_rc'), 'demo_exit_without_mutation': conf.get('demo_without_mutation_rc'),
    'test_suite_with_mutation': tests[0].split(': ', 1)[1] if tests else None},
  'detection': {'check': caught_by, 'first_run': initially, 'final': 'caught (exit 1 with VIOLATION line) by ./check ' + caught_by + ' --tier quick with the patch applied to /repo', 'note': note},
